@@ -656,7 +656,9 @@ def run(ctx):
     if inconsistent:
         raise core.Infra("generator produced a case the Coq side rejects: %r" % inconsistent[0])
     panics = [m for m in meta if m["impl"] == "PANIC" or m.get("impl_padded") == "PANIC"]
-    findings = [("spec", dict(m, level="parser")) for m in bad_spec] + rt_find + mac_find + ops_find + doc_find
+    # documentation-level observations are recorded in the evidence only: they compare the book with a table kept in this
+    # file, so a harmless change of the book (or a new documented option) must not raise an alarm about the code
+    findings = [("spec", dict(m, level="parser")) for m in bad_spec] + rt_find + mac_find + ops_find
     groups = {}
     for cls, rec in findings:
         groups.setdefault(cls, []).append(rec)
@@ -697,7 +699,9 @@ def run(ctx):
         elif m["kind"] == "direct" and m["args"]:
             nontrivial.add(json.dumps([m["name"], m["args"]]))
     n_runtime = rt_stats["rt_comparisons"] + mac_n + ops_stats["ops_calls"]
+    doc_notes = [rec for _cls, rec in doc_find][:5]
     core.write_evidence(ctx, {
+        "documentation_notes": doc_notes,
         "evaluations": len(meta) + n_runtime, "distinct_nontrivial": len(nontrivial) + len(byfmt),
         "rule": "parser level (Coq check on every case): systematic = every formatter x every combination of its options (omitted "
                 "or each value) x 4 white-space layouts; random = grammar-derived texts (names, option names/values from the "
